@@ -221,6 +221,73 @@ theorem sviews_clauses (hs : StrictWeak cmp) (j : Nat) (lo hi : Bound K) (fwd : 
           | none => simpa [sstep, hi'] using hit
           | some it' => simpa [sstep, hi', setSlot, Ne.symm hij] using hit
 
+/-- **"No key that stays in the collection … until the iterator has moved past it is skipped", along a script**
+(specification side). From a state in which the iterator still owes `x` (a fresh iterator owes every entry inside its
+near bound, `smk_owes`; after yielding `y` it owes every entry beyond `y`, `snext_owes_beyond`), for as long as the entry
+`x` is in the map whenever slot `j` is asked: the answers are keys strictly before `x`, then `x` itself — never
+"exhausted", never a key beyond `x` before `x` has been yielded. -/
+theorem sviews_no_skip (hs : StrictWeak cmp) (j : Nat) (fwd : Bool) (stop : Option (CmpOp × K)) (x : K × V)
+    (hkx : keepFn cmp stop x.1 = true)
+    (hmono : ∀ a b, dcmp cmp fwd a b < 0 → keepFn cmp stop b = true → keepFn cmp stop a = true) :
+    ∀ (sts : List (Step K V)) (s : SSt K V) (it : SIter K),
+      Sorted cmp s.L → s.its j = some it → it.fwd = fwd → it.stop = stop → NoMk j sts → Owes cmp it x.1 →
+      (∀ v ∈ sviews cmp j s sts, x ∈ v.1) →
+      (∃ pre post, (sviews cmp j s sts).map (·.2) = pre ++ some x :: post ∧
+          ∀ y ∈ pre, ∃ e, y = some e ∧ dcmp cmp fwd e.1 x.1 < 0) ∨
+      (∀ y ∈ (sviews cmp j s sts).map (·.2), ∃ e, y = some e ∧ dcmp cmp fwd e.1 x.1 < 0) := by
+  intro sts
+  induction sts with
+  | nil => intro s it _ _ _ _ _ _ _; right; intro y hy; simp [sviews] at hy
+  | cons st sts ih =>
+    intro s it hL hit hf hst hno ho hpers
+    have hno' : NoMk j sts := fun f lo hi hm => hno f lo hi (List.mem_cons_of_mem _ hm)
+    cases st with
+    | mutate m =>
+      simp only [sviews] at hpers ⊢
+      exact ih _ it (by simpa [sstep] using sorted_specMut hs hL m) (by simpa [sstep] using hit) hf hst hno' ho hpers
+    | mk i f lo' hi' =>
+      have hij : j ≠ i := by
+        intro h; subst h; exact hno f lo' hi' (by simp)
+      simp only [sviews] at hpers ⊢
+      by_cases hz : lo'.kind = none ∨ hi'.kind = none
+      · exact ih _ it (by simpa [sstep, hz] using hL) (by simpa [sstep, hz] using hit) hf hst hno' ho hpers
+      · exact ih _ it (by simpa [sstep, hz] using hL) (by simpa [sstep, hz, setSlot, hij] using hit) hf hst hno' ho hpers
+    | next i =>
+      simp only [sviews] at hpers ⊢
+      by_cases hij : i = j
+      · subst hij
+        simp only [hit, if_true] at hpers ⊢
+        have hx : x ∈ s.L := hpers (s.L, (snext cmp s.L it).2) (by simp)
+        have hL1 : Sorted cmp (sstep cmp s (.next i)).1.L := by simpa [sstep, hit] using hL
+        rcases snext_no_skip hs hL hx ho (by rw [hst]; exact hkx) (by rw [hf, hst]; exact hmono) with
+          ⟨it', hn⟩ | ⟨it', e, hn, hlt, ho', hf', hst'⟩
+        · left
+          exact ⟨[], (sviews cmp i (sstep cmp s (.next i)).1 sts).map (·.2), by simp [hn], by intro y hy; simp at hy⟩
+        · have hs1 : (sstep cmp s (.next i)).1.its i = some it' := by simp [sstep, hit, hn, setSlot]
+          rw [hf] at hlt
+          rcases ih _ it' hL1 hs1 (by rw [hf', hf]) (by rw [hst', hst]) hno' ho'
+            (fun v hv => hpers v (List.mem_cons_of_mem _ hv)) with ⟨pre, post, h1, h2⟩ | h
+          · left
+            refine ⟨some e :: pre, post, by simp [hn, h1], ?_⟩
+            intro y hy
+            rcases List.mem_cons.mp hy with rfl | hy
+            · exact ⟨e, rfl, hlt⟩
+            · exact h2 y hy
+          · right
+            intro y hy
+            simp only [List.map_cons, hn, List.mem_cons] at hy
+            rcases hy with rfl | hy
+            · exact ⟨e, rfl, hlt⟩
+            · exact h y hy
+      · simp only [hij, if_false] at hpers ⊢
+        refine ih _ it ?_ ?_ hf hst hno' ho hpers
+        · cases hi' : s.its i with
+          | none => simpa [sstep, hi'] using hL
+          | some it' => simpa [sstep, hi'] using hL
+        · cases hi' : s.its i with
+          | none => simpa [sstep, hi'] using hit
+          | some it' => simpa [sstep, hi', setSlot, Ne.symm hij] using hit
+
 /-! ## the model's observations are the same answers, call by call -/
 
 /-- call-by-call agreement of two lists of `Next` results -/
